@@ -60,7 +60,7 @@ contract(MS + 'ClusterParameters.__init__', props=['C13'],
 contract(MS + 'ClusterParameters.member_points', props=['C13'], params=dict(self='obj:ClusterParameters'),
          returns='list[int]', inline=True, ensures=["same(result, self._member_points)"])
 
-contract(MS + 'ClusterParameters.member_points.setter', props=['C13'],
+contract(MS + 'ClusterParameters.member_points.setter', props=['C13', 'C08', 'C12'],
          params=dict(self='obj:ClusterParameters', new_members='list[int]'), ghost={'nullable': ['new_members']},
          assigns=['self._member_points'],
          ensures=["not isnone(self._member_points)",
@@ -91,7 +91,7 @@ contract(MS + 'ClusterParameters.shallow_copy', props=['C13'], params=dict(self=
                   "implies(ascending(self._member_points), eqcontent(result._member_points, self._member_points))",
                   "unchanged(self, self._member_points)"])
 
-contract(MS + 'ClusterParameters.deep_copy', props=['C13'], params=dict(self='obj:ClusterParameters'),
+contract(MS + 'ClusterParameters.deep_copy', props=['C13', 'C08'], params=dict(self='obj:ClusterParameters'),
          returns='obj:ClusterParameters',
          requires=["not isnone(self._member_points)"],
          ensures=["fresh(result)",
@@ -148,7 +148,7 @@ def _dd(n):
         "forall(lambda k1, k2: implies(k1 != k2 and not isnone(members[k1]), not same(members[k1], members[k2])))")]
 
 
-contract(MS + 'ModelState._update_cluster_membership', props=['C13'],
+contract(MS + 'ModelState._update_cluster_membership', props=['C13', 'C08', 'C12'],
          params=dict(self='obj:ModelState'),
          requires=["not isnone(self.clusters)", "not isnone(self.arguments)", "len(self.clusters) == self.arguments.num_clusters",
                    "distinct_clusters(self)"],
@@ -165,7 +165,7 @@ contract(MS + 'ModelState._update_cluster_membership', props=['C13'],
                         + _dd('len(self._point_labels)'),
                         modifies=['self.clusters[*]._member_points', 'members'])})
 
-contract(MS + 'ModelState.point_labels.setter', props=['C13'],
+contract(MS + 'ModelState.point_labels.setter', props=['C13', 'C08', 'C12'],
          params=dict(self='obj:ModelState', new_labels='list[int]'),
          requires=["not isnone(new_labels)", "not isnone(self.clusters)", "not isnone(self.arguments)",
                    "len(self.clusters) == self.arguments.num_clusters", "distinct_clusters(self)"],
@@ -178,7 +178,7 @@ contract(MS + 'ModelState.point_labels.setter', props=['C13'],
                    "not old(new_labels == self._point_labels)), membership_ok(self))"),
                   "unchanged(new_labels)", "unchanged(self.clusters)"])
 
-contract(MS + 'ModelState.shallow_copy', props=['C13'], params=dict(self='obj:ModelState'), returns='obj:ModelState',
+contract(MS + 'ModelState.shallow_copy', props=['C13', 'C08'], params=dict(self='obj:ModelState'), returns='obj:ModelState',
          requires=["not isnone(self.clusters)"],
          ensures=["fresh(result)", "same(result.arguments, self.arguments)", "same(result._point_labels, self._point_labels)",
                   "same(result.stacked_training_data, self.stacked_training_data)",
@@ -208,9 +208,9 @@ contract(MS + 'ModelState.deep_copy', props=['C13'], params=dict(self='obj:Model
 
 _UA = ['sparsity_weight', 'iteration_limit', 'label_switching_cost', 'min_cluster_size', 'min_meaningful_covariance',
        'num_clusters', 'num_processors', 'window_size', 'biased_covariance']
-contract(AR + 'UserArguments.shallow_copy', props=['C13'], params=dict(self='obj:UserArguments'), returns='obj:UserArguments',
+contract(AR + 'UserArguments.shallow_copy', props=['C13', 'C12'], params=dict(self='obj:UserArguments'), returns='obj:UserArguments',
          ensures=["fresh(result)"] + ["result.%s == self.%s" % (f, f) for f in _UA] + ["unchanged(self)"])
-contract(AR + 'UserArguments.deep_copy', props=['C13'], params=dict(self='obj:UserArguments'), returns='obj:UserArguments',
+contract(AR + 'UserArguments.deep_copy', props=['C13', 'C12'], params=dict(self='obj:UserArguments'), returns='obj:UserArguments',
          ensures=["fresh(result)"] + ["result.%s == self.%s" % (f, f) for f in _UA] + ["unchanged(self)"])
 # array-valued hyper-parameters (matrix lambda, per-pair beta): a deep copy must not share them with its source
 contract(AR + 'UserArguments.deep_copy#arrays', props=['C13'], params=dict(self='obj:UserArguments'), returns='obj:UserArguments',
